@@ -126,7 +126,7 @@ PROPS = {
 
     "C05": dict(
         claimed=True, design="§3 C05",
-        technique="grammar-derived operator arity vs def-use of the operand list per operator branch; CFG per-iteration must-append; SQL-skeleton scan for positional UNION ALL over star projections; classification of projection-skip conditions as order-sensitive or not; registry.sql answered from the extracted operator registry (templates and generators lowered); CFG must-pass-through: register_dataframes creates a table on every path of its loop (shared with C19)",
+        technique="grammar-derived operator arity vs def-use of the operand list per operator branch; CFG per-iteration must-append; SQL-skeleton scan for positional UNION ALL over star projections; classification of projection-skip conditions as order-sensitive or not; registry.sql answered from the extracted operator registry (templates and generators lowered); CFG must-pass-through: register_dataframes creates a table on every path of its loop (shared with C19); _visit_set_operation evaluated for a union used as an operand (statement output != union structure)",
         text="Decides the structural clauses of the set-operator property: every operand of the n-ary operators (arity read from Vtl.g4) "
              "reaches the generated SQL, each child contributes exactly one operand on every path, positional combination (UNION ALL) "
              "happens only over explicit name-based projections, nested query operands are not re-quoted, and matching keys are the "
@@ -136,7 +136,7 @@ PROPS = {
 
     "C32": dict(
         claimed=True, design="§3 C32",
-        technique="writer/reader agreement between SQL error('…') texts and the ordered substring decision list of the error mappers; enclosing-handler analysis of data-evaluating execute sites reachable from execute_queries; bare-raise and visitor-coverage inventory on the execution path; non-message guards of mapper branches evaluated (E6) per execution site (statement text vs the empty text of the fetch site); macro-availability rule: macros called by load/fetch SQL vs the conditions under which execute_queries adds them to the installed closure; dataset-form vs classifier/structure-dispatcher contradiction rule over the node-class matrix; the repository's own macro-library parser evaluated (E6) on the real .sql files against a comment/string-aware reading; C26's constructibility rule on the error mappers; per-statement analyser state rule shared with C12; partial-operation lint of the error mappers; finite evaluation of scalar output formatting; typed-macro / connect-config agreement; every-path-raises rule for duckdb handlers; is_re2_incompatible evaluated over construct combinations; null-test dominance in _normalize_scalar_value (CFG)",
+        technique="writer/reader agreement between SQL error('…') texts and the ordered substring decision list of the error mappers; enclosing-handler analysis of data-evaluating execute sites reachable from execute_queries; bare-raise and visitor-coverage inventory on the execution path; non-message guards of mapper branches evaluated (E6) per execution site (statement text vs the empty text of the fetch site); macro-availability rule: macros called by load/fetch SQL vs the conditions under which execute_queries adds them to the installed closure; dataset-form vs classifier/structure-dispatcher contradiction rule over the node-class matrix; the repository's own macro-library parser evaluated (E6) on the real .sql files against a comment/string-aware reading; C26's constructibility rule on the error mappers; per-statement analyser state rule shared with C12; partial-operation lint of the error mappers; finite evaluation of scalar output formatting; typed-macro / connect-config agreement; every-path-raises rule for duckdb handlers; is_re2_incompatible evaluated over construct combinations; null-test dominance in _normalize_scalar_value (CFG); _round_significant evaluated over the kinds of float the engine can return (total, no raise)",
         text="Decides the structural conditions under which an execution failure can surface as a VTL error: every error text the "
              "engine's own SQL can raise is claimed by the intended branch of the mapper serving its execution site, every branch "
              "returns a coded VTL exception, statements that evaluate data are executed under a duckdb.Error handler that maps, no "
@@ -147,14 +147,15 @@ PROPS = {
 
     "C01": dict(
         claimed=True, design="§3 C01",
-        technique="operator-registry extraction (loops unrolled, generators lowered) + SQL expression parser + nullness abstract interpretation through macro bodies + exact three-valued evaluation vs Kleene tables + semantic-token vs SQL-generation-path comparison; abstract interpretation (E6) of the dataset-scalar operator builder for division in both operand orders; spelling grid of the period normaliser; hand-rolled cache keys vs parameters of the cached computation; wrapped-execute rule (every data-evaluating execute under `except duckdb.Error`, shared with C32); exact Integer carrier of the DataFrame loader (shared with C18)",
+        technique="operator-registry extraction (loops unrolled, generators lowered) + SQL expression parser + nullness abstract interpretation through macro bodies + exact three-valued evaluation vs Kleene tables + semantic-token vs SQL-generation-path comparison; abstract interpretation (E6) of the dataset-scalar operator builder for division in both operand orders; spelling grid of the period normaliser; hand-rolled cache keys vs parameters of the cached computation; wrapped-execute rule (every data-evaluating execute under `except duckdb.Error`, shared with C32); exact Integer carrier of the DataFrame loader (shared with C18); measure-name agreement of isnull three ways (validator / SELECT alias / structure as an operand) and of nested dataset-level operators (alias delivered == structure resolved for the enclosing operator), both sides evaluated",
         text="Decides four structural clauses of the element-wise operator property for every operator at once: each token accepted by "
              "semantic analysis has an SQL generation path; every element-wise SQL template (and every macro it calls) yields NULL when an "
              "operand is NULL; and/or/xor/not have the VTL three-valued truth tables; division by zero travels from the DIV template "
              "through error() to a catalogued runtime error; dataset-level if-then-else treats a null condition as else in its row "
              "filters. The values DuckDB computes (that + adds, that joins match the right rows) are not decided.",
         note="Trusts SQL semantics of DuckDB's scalar functions (NULL in -> NULL out), COALESCE, CASE, AND/OR. VTL's null rules are an "
-             "oracle table in the checker. Found and repaired: null-condition row filter of if-then-else."),
+             "oracle table in the checker. Found and repaired: null-condition row filter of if-then-else; isnull over a Boolean measure. Known findings (open): "
+             "nested mono-measure operators `(DS_1 + DS_2) > 15` and `not(DS_1 > 1)` end in a raw BinderException (R01.13)."),
 
     "C08": dict(
         claimed=True, design="§3 C08",
@@ -214,7 +215,7 @@ PROPS = {
              "class attributes used as scratch variables), three demonstrated with forced interleavings (triage/race_demo.py)."),
     "C10": dict(
         claimed=True, design="§3 C10",
-        technique="def-use provenance of structure objects from interpreter.visit() to the returned Dataset/Scalar; AST shape rule on the fetch projection; who-may-write rule over structure fields (execution pipeline) and reviewed-writer table for role/nullable; structure model (E6) of membership (validator vs structure builder vs SELECT list); row-multiplicity rule for exists_in (JOIN keys vs identifiers of the probed operand); finite evaluation of If.validate over component nullability; vtl_tp_shift cells (shared with C08); operand-mutation effect analysis over the analytic / aggregation / time validators (shared with C12)",
+        technique="def-use provenance of structure objects from interpreter.visit() to the returned Dataset/Scalar; AST shape rule on the fetch projection; who-may-write rule over structure fields (execution pipeline) and reviewed-writer table for role/nullable; structure model (E6) of membership (validator vs structure builder vs SELECT list); row-multiplicity rule for exists_in (JOIN keys vs identifiers of the probed operand); finite evaluation of If.validate over component nullability; vtl_tp_shift cells (shared with C08); operand-mutation effect analysis over the analytic / aggregation / time validators (shared with C12); declared measures == delivered measure columns for dataset-level analytic operators and for isnull (both sides evaluated)",
         text="Decides the structural clause of the property: run() returns the very structure objects its semantic pass (configured like "
              "semantic_analysis()) produced; the fetch query projects the declared components in declared order (no physical-order "
              "SELECT * when components are declared); nothing in the execution pipeline rewrites type/role/nullability/components of "
@@ -276,7 +277,7 @@ PROPS = {
         note="The choice of the left-hand alias of ON clauses for inner/left joins is not decided (seeded change C04_1 is missed)."),
     "C06": dict(
         claimed=True, design="§3 C06",
-        technique="typed field-read inventory for Analytic/Windowing/OrderBy; paired-field rule (partition_by/partition_op, bounds/modes); guard-emission pairing on the CFG of the OVER-clause builder (strict ORDER BY guard); registry templates vs the grammar's analytic operators (same-name rule, sibling shape agreement); evaluation of the window-bound formatter over all bound shapes; abstract interpretation (E6) of visit_Windowing over every frame shape (offsets 0-3, unbounded, current; data points / range; date ordering) against the offset semantics of the frame; decision table (E6) of the AST constructor's window-limit ordering; spelling grid; window-kind comparisons vs grammar token texts; dependency handlers of analytic nodes (field matrix + every-path traversal, shared with C12); _resolve_udo_name evaluated on swapped / shifted operator bindings (no variable capture)",
+        technique="typed field-read inventory for Analytic/Windowing/OrderBy; paired-field rule (partition_by/partition_op, bounds/modes); guard-emission pairing on the CFG of the OVER-clause builder (strict ORDER BY guard); registry templates vs the grammar's analytic operators (same-name rule, sibling shape agreement); evaluation of the window-bound formatter over all bound shapes; abstract interpretation (E6) of visit_Windowing over every frame shape (offsets 0-3, unbounded, current; data points / range; date ordering) against the offset semantics of the frame; decision table (E6) of the AST constructor's window-limit ordering; spelling grid; window-kind comparisons vs grammar token texts; dependency handlers of analytic nodes (field matrix + every-path traversal, shared with C12); _resolve_udo_name evaluated on swapped / shifted operator bindings (no variable capture); declared measures of Analytic.validate == measure columns of the dataset-level analytic SELECT (both evaluated, 1 and 2 measures; shared with C10)",
         text="Decides the structural clauses of analytic invocations: partition, order, window and parameters all reach the OVER "
              "clause; `partition except` is honoured wherever the partition is used; ORDER BY is emitted exactly when the script "
              "has an order by and the frame exactly when it has a window; every analytic operator is the SQL window function of the "
